@@ -638,6 +638,8 @@ static void leak_probe(void) { }
 #endif
 
 static int pending_errno = 0, pending_errno_set = 0;
+static struct rlimit xfsz_old; static volatile int xfsz_fired;
+static void xfsz_handler(int sig) { (void)sig; xfsz_fired++; setrlimit(RLIMIT_FSIZE, &xfsz_old); }
 static int run_line(char *line)
 {
   char *tok[MAXTOK];
@@ -1120,6 +1122,26 @@ static int run_line(char *line)
     setrlimit(RLIMIT_FSIZE, &old);
     free(path);
     r_int(r); return 0;
+  }
+  if(n == 3 && IS("writeft"))
+  {
+    /* config_write_file with ONE transient write failure: the file size limit is <cap> until the first write hits it
+       (SIGXFSZ: the write fails with EFBIG), then the limit is lifted and every later write, the flush and the close
+       succeed.  stdio has dropped a buffer and set the stream's error indicator: the call must report failure. */
+    char *path = parse_hs(tok[1], NULL);
+    struct rlimit old, lim;
+    struct sigaction sa, osa;
+    getrlimit(RLIMIT_FSIZE, &old);
+    xfsz_old = old; xfsz_fired = 0;
+    memset(&sa, 0, sizeof sa); sa.sa_handler = xfsz_handler; sigaction(SIGXFSZ, &sa, &osa);
+    lim = old; lim.rlim_cur = (rlim_t)parse_num(tok[2]); setrlimit(RLIMIT_FSIZE, &lim);
+    int r = config_write_file(&cfg, path);
+    setrlimit(RLIMIT_FSIZE, &old);
+    sigaction(SIGXFSZ, &osa, NULL);
+    free(path);
+    r_int(r);
+    fprintf(out, "L xfsz %d\n", xfsz_fired);
+    return 0;
   }
   if(IS("fs") && n >= 3)
   {
